@@ -46,7 +46,7 @@ def c19_case(draw):
     elif fam == "affine":
         c = draw(gen.case_affine(max_extent=4, coeffs=(1, 1, 2, 3), allow_partition=False))
     else:
-        c = draw(gen.case_cascade(max_extent=3))
+        c = draw(gen.case_cascade(max_extent=3, allow_flatten=False))
     return {"spec": c["spec"], "family": fam}
 
 
@@ -55,7 +55,8 @@ class Main(Part):
     rule = ("Hypothesis draws an Einsum (plain, shape- or occupancy-partitioned, affine, cascade; no flatten). Three comparisons of "
             "emitted text: (1) rank-order omitted vs every tensor's declared order written out; (2) loop-order omitted vs the default "
             "written out (output ranks as written, then remaining ranks by first appearance, partitioned ranks replaced in place by "
-            "their levels outermost to innermost); (3) partitioning omitted vs an explicitly empty partitioning for every output. "
+            "their levels outermost to innermost); (3) partitioning omitted vs an explicitly empty partitioning for every output; "
+            "(4) as (2) with a drawn, permuted rank-order section kept on both sides. "
             "Non-trivial = >= 2 non-output ranks, a partitioned rank, or >= 2 terms.")
 
     def budget(self, tier):
@@ -107,6 +108,19 @@ class Main(Part):
         except X.Rejected as r:
             raise Violation("explicitly empty partitioning is refused: %s" % r, sig="empty-partitioning-refused", details={"yaml": y_explicit})
         self._same(t3a, t3b, "partitioning omitted", "explicitly empty partitioning", b3)
+        # (4) the default loop order does not depend on the storage rank order: keep the drawn rank-order section
+        if spec.get("rank_order"):
+            b4 = copy.deepcopy(base)
+            b4["rank_order"] = copy.deepcopy(spec["rank_order"])
+            t4a = str(oracle.compile_or_skip(b4, metrics=False))
+            s4 = copy.deepcopy(b4)
+            for e in b4["exprs"]:
+                lo = defaults.default_loop_order(b4, e)
+                if lo:
+                    s4["loop_order"][S.out_name(e)] = lo
+            t4b = str(oracle.compile_or_skip(s4, metrics=False))
+            self._same(t4a, t4b, "loop-order omitted (rank-order %r given)" % (spec["rank_order"],),
+                       "default loop order %r written out" % (s4["loop_order"],), s4)
         e0 = base["exprs"][0]
         outv = [ie[0][1] for ie in e0["out"][1]]
         nonout = [v for v in S.expr_vars(e0) if v not in outv]
